@@ -187,6 +187,10 @@ fn list_files(dir: &Path, base: &Path, out: &mut Vec<String>) {
 pub fn execute(plan: &Plan, sandbox: &Path, verbose: bool) -> ExecRecord {
     let lay = layout(plan, sandbox);
     std::fs::create_dir_all(sandbox).ok();
+    if plan.options.emit_timing {
+        // the CLI's build directory normally exists because the default output lives in it
+        std::fs::create_dir_all(&lay.build_dir).ok();
+    }
     let out_existed_before = lay.out_file.exists();
 
     // environment the simulator owns
